@@ -494,3 +494,107 @@ Proof. eexists. eexists. split; [vm_compute; reflexivity|]. split; [vm_compute; 
 Example ex_forget : exists s s', run init (firstn 18 tr_example) = Some s /\
   step s (Kill 1%nat) = Some s' /\ names (jobs s) ++ names (bakl s) = [1; 2].
 Proof. eexists. eexists. split; [vm_compute; reflexivity|]. split; vm_compute; reflexivity. Qed.
+
+(* ------------------------------------------------------------------ the lock file behind `lock` *)
+Lemma updh_eq {A} (f : nat -> option A) k v : updh f k v k = v.
+Proof. unfold updh. rewrite Nat.eqb_refl. reflexivity. Qed.
+Lemma updh_neq {A} (f : nat -> option A) k v q : q <> k -> updh f k v q = f q.
+Proof. unfold updh. intros H. apply Nat.eqb_neq in H. rewrite H. reflexivity. Qed.
+
+Definition LInv (s : lf) : Prop :=
+  (forall p i, lf_handle s p = Some i -> lf_path s = Some i) /\
+  (forall i p, lf_holder s i = Some p -> lf_handle s p = Some i).
+
+Lemma linv_init : LInv lf_init.
+Proof. split; intros ? ? H; discriminate H. Qed.
+
+Opaque updh.
+Lemma lf_step_inv s e s' : LInv s -> lf_step s e = Some s' -> LInv s'.
+Proof.
+  intros [I1 I2] H. unfold lf_step, lf_step_gen in H. destruct e as [p|p|p|p|p].
+  - (* LOpen *)
+    destruct (lf_handle s p) eqn:Hp; [discriminate|]. destruct (lf_path s) as [i|] eqn:P; injection H as <-; unfold LInv; simpl.
+    + split.
+      * intros q j Hq. destruct (Nat.eq_dec q p) as [->|N].
+        -- rewrite updh_eq in Hq. congruence.
+        -- rewrite updh_neq in Hq by exact N. eauto.
+      * intros j q Hq. pose proof (I2 _ _ Hq) as Hh. destruct (Nat.eq_dec q p) as [->|N]; [congruence|].
+        rewrite updh_neq by exact N. exact Hh.
+    + split.
+      * intros q j Hq. destruct (Nat.eq_dec q p) as [->|N].
+        -- rewrite updh_eq in Hq. congruence.
+        -- rewrite updh_neq in Hq by exact N. apply I1 in Hq. congruence.
+      * intros j q Hq. pose proof (I2 _ _ Hq) as Hh. destruct (Nat.eq_dec q p) as [->|N]; [congruence|].
+        rewrite updh_neq by exact N. exact Hh.
+  - (* LAcquire *)
+    destruct (lf_handle s p) as [i|] eqn:Hp; [|discriminate]. destruct (lf_holder s i) eqn:Hi; [discriminate|].
+    injection H as <-; unfold LInv; simpl. split; [exact I1|].
+    intros j q Hq. destruct (Nat.eq_dec j i) as [->|N].
+    + rewrite updh_eq in Hq. congruence.
+    + rewrite updh_neq in Hq by exact N. eauto.
+  - (* LRelease *)
+    destruct (lf_handle s p) as [i|] eqn:Hp; [|discriminate]. destruct (lf_holder s i) as [q|] eqn:Hi; [|discriminate].
+    destruct (Nat.eqb q p) eqn:E; [|discriminate]. apply Nat.eqb_eq in E. subst q.
+    injection H as <-; unfold LInv; simpl. split.
+    + intros q j Hq. destruct (Nat.eq_dec q p) as [->|N].
+      * rewrite updh_eq in Hq. discriminate.
+      * rewrite updh_neq in Hq by exact N. eauto.
+    + intros j q Hq. destruct (Nat.eq_dec j i) as [->|N].
+      * rewrite updh_eq in Hq. discriminate.
+      * rewrite updh_neq in Hq by exact N. pose proof (I2 _ _ Hq) as Hh.
+        destruct (Nat.eq_dec q p) as [->|N2]; [congruence|]. rewrite updh_neq by exact N2. exact Hh.
+  - discriminate.
+  - (* LDie *)
+    destruct (lf_handle s p) as [i|] eqn:Hp; [|discriminate]. injection H as <-; unfold LInv; simpl. split.
+    + intros q j Hq. destruct (Nat.eq_dec q p) as [->|N].
+      * rewrite updh_eq in Hq. discriminate.
+      * rewrite updh_neq in Hq by exact N. eauto.
+    + assert (HH : forall j q, q <> p -> lf_holder s j = Some q -> updh (lf_handle s) p None q = Some j).
+      { intros j q N Hq. rewrite updh_neq by exact N. eauto. }
+      intros j q Hq. destruct (lf_holder s i) as [r|] eqn:Hi.
+      * destruct (Nat.eqb r p) eqn:E.
+        -- apply Nat.eqb_eq in E. subst r. destruct (Nat.eq_dec j i) as [->|N].
+           ++ rewrite updh_eq in Hq. discriminate.
+           ++ rewrite updh_neq in Hq by exact N. apply HH; [|exact Hq]. intros ->.
+              pose proof (I2 _ _ Hq) as Hh. congruence.
+        -- apply Nat.eqb_neq in E. apply HH; [|exact Hq]. intros ->. pose proof (I2 _ _ Hq) as Hh.
+           assert (j = i) by congruence. subst j. congruence.
+      * apply HH; [|exact Hq]. intros ->. pose proof (I2 _ _ Hq) as Hh.
+        assert (j = i) by congruence. subst j. congruence.
+Qed.
+
+Transparent updh.
+
+Lemma lf_run_inv tr : forall s, lf_run lf_init tr = Some s -> LInv s.
+Proof.
+  induction tr as [|e tr IH] using rev_ind; intros s H.
+  - injection H as <-. apply linv_init.
+  - unfold lf_run, lf_run_gen in H. rewrite fold_left_app in H. simpl in H.
+    fold (lf_run_gen false lf_init tr) in H. destruct (lf_run_gen false lf_init tr) as [s0|] eqn:R; [|discriminate].
+    eapply lf_step_inv; [apply IH; exact R | exact H].
+Qed.
+
+(* as long as nobody removes the lock file, at most one process holds "the" lock *)
+Theorem lockfile_exclusive : forall tr s i j p q, lf_run lf_init tr = Some s ->
+  lf_holder s i = Some p -> lf_holder s j = Some q -> i = j /\ p = q.
+Proof.
+  intros tr s i j p q H Hp Hq. apply lf_run_inv in H. destruct H as [I1 I2].
+  pose proof (I1 _ _ (I2 _ _ Hp)) as P1. pose proof (I1 _ _ (I2 _ _ Hq)) as P2.
+  assert (i = j) by congruence. subst j. split; congruence.
+Qed.
+
+(* with an exit that unlinks the lock file after releasing it: A inside, B waiting on the old
+   file, A leaves, B gets the (now nameless) old file, C creates and locks a new one *)
+Definition tr_unlink : list lf_event :=
+  [ LOpen 0%nat; LAcquire 0%nat; LOpen 1%nat; LReleaseUnlink 0%nat; LAcquire 1%nat; LOpen 2%nat; LAcquire 2%nat ].
+
+Theorem unlink_variant_refuted : exists tr s i j p q, lf_run_unlink lf_init tr = Some s /\
+  lf_holder s i = Some p /\ lf_holder s j = Some q /\ p <> q.
+Proof.
+  exists tr_unlink. eexists. exists 0%nat, 1%nat, 1%nat, 2%nat.
+  split; [vm_compute; reflexivity|]. repeat split; try reflexivity. discriminate.
+Qed.
+
+Example ex_lockfile : exists s, lf_run lf_init [LOpen 0%nat; LAcquire 0%nat; LOpen 1%nat; LRelease 0%nat; LAcquire 1%nat; LOpen 2%nat] = Some s /\
+  lf_holder s 0%nat = Some 1%nat /\ lf_step s (LAcquire 2%nat) = None.
+Proof. eexists. split; [vm_compute; reflexivity|]. split; reflexivity. Qed.
